@@ -52,7 +52,7 @@ func (m *c11Msg) has(tag string) bool {
 }
 
 var c11Msgs []*c11Msg
-var c11Rates = struct{ lookalike, empty, nested, badplural, parens int }{3, 5, 15, 15, 4} // per mille of messages
+var c11Rates = struct{ lookalike, empty, nested, badplural, parens, twin int }{3, 5, 15, 15, 4, 110} // per mille of messages
 
 func c11Token(i int) string { return fmt.Sprintf("@@MSG%d@@", i) }
 
@@ -96,7 +96,45 @@ func c11MsgHook(g *progGen, env genv, d int) string {
 	default:
 		m.Body = m.genParts(g, env, 1+r.Intn(5))
 	}
-	return c11Token(m.Idx)
+	tok := c11Token(m.Idx)
+	if tw := m.twin(g, env); tw != nil {
+		tok += c11Token(tw.Idx)
+	}
+	return tok
+}
+
+// twin generates, next to m, a second message with the same meaning whose PO entry has the SAME msgid
+// (the same singular text) although it is another message with another id: a plain message with the
+// text of a plural's {case 1}, or a plural that differs in its {default} text or in its plural
+// variable only.  A catalogue must carry both, and each must get its own translation.
+func (m *c11Msg) twin(g *progGen, env genv) *c11Msg {
+	r := g.r
+	if m.has("empty") || m.has("badplural") || m.has("nested") || r.Intn(1000) >= c11Rates.twin {
+		return nil
+	}
+	tw := &c11Msg{Idx: len(c11Msgs), Meaning: m.Meaning}
+	c11Msgs = append(c11Msgs, tw)
+	switch {
+	case !m.Plural:
+		tw.Plural, tw.PluralExpr = true, c11PluralExpr(g, env)
+		tw.Cases = []c11Case{{1, m.Body}}
+		tw.Body = tw.genParts(g, env, 1+r.Intn(3))
+		g.feat("msg-twin-plural-of-plain")
+	case r.Intn(3) == 0:
+		tw.Body = m.Cases[0].Parts
+		g.feat("msg-twin-plain-of-plural")
+	case r.Intn(2) == 0:
+		tw.Plural, tw.PluralExpr = true, m.PluralExpr
+		tw.Cases = []c11Case{{1, m.Cases[0].Parts}}
+		tw.Body = tw.genParts(g, env, 1+r.Intn(3))
+		g.feat("msg-twin-plural-other-default")
+	default:
+		tw.Plural, tw.PluralExpr = true, c11PluralExpr(g, env)
+		tw.Cases = []c11Case{{1, m.Cases[0].Parts}}
+		tw.Body = m.Body
+		g.feat("msg-twin-plural-other-var")
+	}
+	return tw
 }
 
 func c11PluralExpr(g *progGen, env genv) string {
@@ -167,7 +205,25 @@ func (m *c11Msg) genParts(g *progGen, env genv, n int) []c11Part {
 			}
 		case c < 11:
 			g.feat("msg-special")
-			switch r.Intn(6) {
+			switch r.Intn(9) {
+			case 6:
+				// a failed placeholder start directly before a placeholder: {X{NAME}, {{NAME}, {_1{NAME}}
+				ps = append(ps, c11Part{Src: "{lb}", Text: "{"}, c11Text(r.Pick([]string{"X", "", "A_1", "0", "NAME", "x"})), anyVar())
+				if r.Bool() {
+					ps = append(ps, c11Part{Src: "{rb}", Text: "}"})
+				}
+				g.feat("msg-brace-before-placeholder")
+			case 7:
+				// {{NAME}} and {{{NAME}
+				ps = append(ps, c11Part{Src: "{lb}", Text: "{"}, c11Part{Src: "{lb}", Text: "{"}, anyVar(), c11Part{Src: "{rb}", Text: "}"})
+				if r.Bool() {
+					ps = append(ps, c11Part{Src: "{rb}", Text: "}"})
+				}
+				g.feat("msg-brace-before-placeholder")
+			case 8:
+				// a placeholder, a blank, a brace: the reversing translation moves the brace against the placeholder
+				ps = append(ps, anyVar(), c11Text(r.Pick([]string{" ", ""})), c11Part{Src: "{lb}", Text: "{"}, c11Text(r.Pick([]string{"", "X", "SET"})))
+				g.feat("msg-brace-before-placeholder")
 			case 0:
 				ps = append(ps, c11Part{Src: "{sp}", Text: " "})
 			case 1:
@@ -307,6 +363,26 @@ var c11Locales = []c11Locale{
 	// thorough tier only
 	{3, "fr", 2, "nplurals=2; plural=(n > 1);", []string{"not ($P > 1)"}, "return n > 1 ? 1 : 0;"},
 	{4, "cs", 3, "nplurals=3; plural=(n==1) ? 0 : (n>=2 && n<=4) ? 1 : 2;", []string{"$P == 1", "$P >= 2 and $P <= 4"}, "return n==1 ? 0 : (n>=2 && n<=4) ? 1 : 2;"},
+}
+
+// catalogues whose Plural-Forms header is NOT the rule the PO library has for the name they are loaded
+// under (regional names are trimmed to the language: fr_BE -> fr, n > 1): the header of the catalogue
+// decides.  The header is always written for these.
+var c11Disagree = []c11Locale{
+	{1, "fr_BE", 2, "nplurals=2; plural=(n != 1);", []string{"$P == 1"}, "return n != 1 ? 1 : 0;"},  // built in: n > 1 (differs at 0)
+	{2, "en_GB", 3, c11Locales[2].Header, c11Locales[2].Conds, c11Locales[2].JS},                       // built in: two forms
+	{0, "de_AT", 1, "nplurals=1; plural=0;", nil, "return 0;"},                                        // built in: two forms (index 1 does not exist)
+	{1, "pt_BR", 2, "nplurals=2; plural=(n != 1);", []string{"$P == 1"}, "return n != 1 ? 1 : 0;"},  // built in (exact entry): n > 1
+	{3, "nl", 2, "nplurals=2; plural=(n > 1);", []string{"not ($P > 1)"}, "return n > 1 ? 1 : 0;"},     // built in: n != 1
+}
+
+func c11IsDisagree(name string) bool {
+	for _, l := range c11Disagree {
+		if l.Name == name {
+			return true
+		}
+	}
+	return false
 }
 
 // ---------------------------------------------------------------------------
@@ -485,5 +561,21 @@ func c11Corpus() []c11CorpusCase {
 	twoLines := tag(flat(tx("Hello "), ph("{$name}")), "descnl")
 	twoLines.Desc = `: first line\nsecond line`
 	r = append(r, mk(std, nums[:2], twoLines, flat(tx("another message of the same project"))))
+	// braces against placeholders: {{NAME}}, {X{NAME}, {{{NAME}, and a brace that a reversing translation moves against a placeholder
+	r = append(r, mk(std, nums[:2],
+		flat(tx("set "), lb, lb, ph("{$name}"), rb, rb),
+		flat(lb, tx("X"), ph("{$name}"), tx(" "), lb, tx("A_1"), ph("{$n}"), rb),
+		flat(lb, lb, lb, ph("{$name}")),
+		flat(ph("{$name}"), tx(" "), lb),
+		flat(ph("{$n}"), lb, tx("SET")),
+		plural("$n", []c11Part{lb, ph("{$name}")}, []c11Part{lb, tx("N"), ph("{$n}"), rb})))
+	// messages that share their msgid (the singular text) without being the same message
+	r = append(r, mk(std, nums,
+		flat(tx("One item")),
+		plural("$n", []c11Part{tx("One item")}, []c11Part{ph("{$n}"), tx(" items")}),
+		plural("$n", []c11Part{tx("One item")}, []c11Part{ph("{$n}"), tx(" things")}),
+		plural("$a", []c11Part{tx("One item")}, []c11Part{ph("{$n}"), tx(" items")}),
+		plural("$n", []c11Part{tx("for "), ph("{$name}")}, []c11Part{ph("{$n}"), tx(" for "), ph("{$name}")}),
+		flat(tx("for "), ph("{$name}"))))
 	return r
 }
